@@ -48,8 +48,9 @@ class Real:
         from monkeytype.tracing import CallTrace
         if spec == UNSER:
             return CallTrace(mkfunc("m", "bad"), {"a": object()}, None)   # an instance is not a type: serialisation fails
-        m, q, av, ret = spec
-        return CallTrace(mkfunc(m, q), {"a": int} if av else {}, int if ret else None)
+        m, q, av, ret, *rest = spec
+        yld = (None, int, str)[rest[0]] if rest else None      # rows that differ in the yield type only are distinct rows
+        return CallTrace(mkfunc(m, q), {"a": int} if av else {}, int if ret else None, yld)
 
     def row(self, spec):
         from monkeytype.encoding import CallTraceRow
@@ -215,7 +216,8 @@ def run_history(chk, drv, hist, nconn, queries_after_each=True, tag="random"):
 
 def small_histories(max_len):
     A, B, C = ("m", "my_func", 1, 1), ("m", "myXfunc", 0, 0), ("M", "MY_FUNC", 1, 0)
-    ops = [("add", 0, [A]), ("add", 1, [B, UNSER, A]), ("add", 0, [C, B]), ("addInt", 1, [A, B, C], 3), ("reopen", 0),
+    D, E = A + (1,), A + (2,)      # the same call signature as A with yield types int / str: three distinct rows
+    ops = [("add", 0, [A]), ("add", 1, [B, UNSER, A, D]), ("add", 0, [C, B, E]), ("addInt", 1, [A, B, C], 3), ("reopen", 0),
            ("add", 1, [UNSER])]
     for n in range(1, max_len + 1):
         for seq in itertools.product(ops, repeat=n):
@@ -228,7 +230,7 @@ def random_history(rng, maxlen, nconn):
         r = rng.random()
         c = rng.randrange(nconn)
         mk = lambda: UNSER if rng.random() < 0.12 else (rng.choice(MODULES[:3]) if rng.random() < 0.93 else "",
-                                                        rng.choice(QUALS), rng.randrange(2), rng.randrange(2))
+                                                        rng.choice(QUALS), rng.randrange(2), rng.randrange(2), rng.choice([0, 0, 1, 2]))
         batch = [mk() for _ in range(rng.choice([1, 1, 2, 3, 5, 8]))]
         if r < 0.6:
             hist.append(("add", c, batch))
